@@ -10,6 +10,11 @@
 static int g_chunks = 1;   // answered to the library's omp_get_num_procs / omp_get_max_threads (chunks run sequentially)
 extern "C" int omp_get_num_procs(void) noexcept { return g_chunks; }
 extern "C" int omp_get_max_threads(void) noexcept { return g_chunks; }
+extern "C" int omp_get_thread_num(void) noexcept { return 0; }      // pragmas are ignored in this build: every parallel region runs as a team of one
+extern "C" int omp_get_num_threads(void) noexcept { return 1; }
+extern "C" int omp_in_parallel(void) noexcept { return 0; }
+extern "C" void omp_set_num_threads(int) noexcept {}
+extern "C" int omp_get_thread_limit(void) noexcept { return 1; }
 
 #ifdef VERIF_ASAN
 extern "C" void __asan_on_error() {
@@ -249,6 +254,7 @@ struct Explorer {
             // of the code word (the translation keeps the relative Morton order: the low three bits per coordinate are untouched)
             const T B = high ? T(T(1) << (sizeof(T) * 8 / D - 2)) : T(0);
             std::vector<std::pair<P, int>> cells = {{P{1, 0}, 1}, {P{0, 1}, m1}, {P{1, 1}, 3}, {P{2, 0}, 1}, {P{3, 0}, m2}, {P{2, 1}, 2}, {P{3, 1}, 1}, {P{0, 2}, 2}, {P{2, 2}, 1}, {P{5, 5}, 1}};
+            if (m2 < 0) cells.resize(2);   // nothing stored after the miss run: BIGMIN lies beyond every stored code
             for (auto &c : cells) for (size_t d = 0; d < D; ++d) c.first[d] = T(c.first[d] + B);
             std::string spec = spec_str(cells);
             Built b{};
@@ -428,7 +434,7 @@ struct Thunk {
         }
         if (t.kind == 3) {
             // lo0 selects the slice: single runs of every length 1..600, or every split of a set of critical totals into two runs
-            if (t.lo0 == 0) { for (int m = int(t.G); m < int(t.G) + 50 && m <= 600; ++m) { ex.family_missrun(m, 0); if (m % 5 == 0 || (m >= 60 && m <= 70)) ex.family_missrun(m, 0, true); if (r.deadline_passed()) return; } }
+            if (t.lo0 == 0) { for (int m = int(t.G); m < int(t.G) + 50 && m <= 600; ++m) { ex.family_missrun(m, 0); if (m % 5 == 0 || (m >= 60 && m <= 70)) { ex.family_missrun(m, 0, true); ex.family_missrun(m, -1); } if (r.deadline_passed()) return; } }
             else for (int total : {63, 64, 65, 66, 127, 128, 129, 130, 191, 192, 193, 255, 256, 257, 258, 319, 320, 321, 511, 512, 513}) for (int m1 = int(t.G); m1 <= total; m1 += 16) { ex.family_missrun(m1, total - m1); if (r.deadline_passed()) return; }
             return;
         }
@@ -463,7 +469,7 @@ int main(int argc, char **argv) {
     Cn cn(run);
     std::vector<CfgEntry> cfgs = {
         CFG("md<2,u32,1>", 0, 2, uint32_t, 1), CFG("md<2,u32,4>", 0, 2, uint32_t, 4), CFG("md<2,u64,16>", 0, 2, uint64_t, 16), CFG("md<3,u32,1>", 0, 3, uint32_t, 1),
-        CFG("md<3,u64,4>", 0, 3, uint64_t, 4), CFG("md<4,u64,1>", 0, 4, uint64_t, 1), CFG("md<2,u32,16>", 1, 2, uint32_t, 16), CFG("md<2,u64,1>", 1, 2, uint64_t, 1), CFG("md<2,u32,64>", 2, 2, uint32_t, 64), CFG("md<2,u64,32>", 2, 2, uint64_t, 32), CFGR("md<2,u64,1,40>", 3, 2, uint64_t, 1, 40), CFGR("md<3,u32,2,33>", 3, 3, uint32_t, 2, 33),
+        CFG("md<3,u64,4>", 0, 3, uint64_t, 4), CFG("md<4,u32,1>", 0, 4, uint32_t, 1), CFG("md<4,u64,1>", 0, 4, uint64_t, 1), CFG("md<2,u32,16>", 1, 2, uint32_t, 16), CFG("md<2,u64,1>", 1, 2, uint64_t, 1), CFG("md<2,u32,64>", 2, 2, uint32_t, 64), CFG("md<2,u64,32>", 2, 2, uint64_t, 32), CFGR("md<2,u64,1,40>", 3, 2, uint64_t, 1, 40), CFGR("md<3,u32,2,33>", 3, 3, uint32_t, 2, 33),
     };
     // self-check of the harness's Morton code against the library's on a few points (harness error, never a violation)
     {
@@ -549,7 +555,7 @@ int main(int argc, char **argv) {
     ev.states_counter = "point_multisets_indexed"; ev.transitions_counter = prop == 14 ? "contains_queries_checked" : "box_queries_checked";
     ev.nontrivial_counter = "multisets_with_2plus_distinct_points";
     ev.rule = "real miss_threshold=64; boxes are traversed with ++it and (every box of at most 8 points and every third other box) again with it++; points are supplied in enumeration order, lexicographic order and reverse lexicographic order. (a) every multiplicity vector in {0,1,65}^cells over 3x3 (2D) / 2x2x2 (3D) cell universes (65 copies of an out-of-box cell force the bigmin skip), several coordinate sets incl. the largest encodable coordinate; "
-              "(b) full grids 16x16, 32x32, 8x8x8, 4^4 with every axis-aligned box; (c, thorough) 16x16 grid with every {removed,x1,x2} pattern of a 3x3 window; (e) 33124 / 35937 grid points plus 7 or 19 far points, index built with 2, 8 and 20 chunks (chunked construction); (g) point sets whose sorted Morton codes are the keys of members of the one-dimensional density family (1,200 clusters whose spacing changes every 300; also with EpsilonRecursive 33 / 40, the binary-search routing path): contains() for every stored point and for the absent neighbours of every key, three boxes; (f) wide thin boxes (2^h wide for every h the coordinate type holds, miss runs of 64/65/66/130 that end just below x = 2^h, three placements of the first hit beyond): BIGMIN decisions at every bit of the code word, all dimensions and coordinate types; (d) miss-run family: a run of m consecutive out-of-box points for every m in 1..600 (and, for every fifth m and 60..70, the same constellation translated to the top bits of the code word) and every split (step 16) of the totals {63..66,127..130,191..193,255..258,319..321,511..513} into two runs separated by an in-box hit, also for Epsilon 32 and 64. " +
+              "(b) full grids 16x16, 32x32, 8x8x8, 4^4 with every axis-aligned box; (c, thorough) 16x16 grid with every {removed,x1,x2} pattern of a 3x3 window; (e) 33124 / 35937 grid points plus 7 or 19 far points, index built with 2, 8 and 20 chunks (chunked construction); (g) point sets whose sorted Morton codes are the keys of members of the one-dimensional density family (1,200 clusters whose spacing changes every 300; also with EpsilonRecursive 33 / 40, the binary-search routing path): contains() for every stored point and for the absent neighbours of every key, three boxes; (f) wide thin boxes (2^h wide for every h the coordinate type holds, miss runs of 64/65/66/130 that end just below x = 2^h, three placements of the first hit beyond): BIGMIN decisions at every bit of the code word, all dimensions and coordinate types; (d) miss-run family: a run of m consecutive out-of-box points for every m in 1..600 (and, for every fifth m and 60..70, the same constellation translated to the top bits of the code word, and the constellation cut off after the run so that nothing is stored beyond it) and every split (step 16) of the totals {63..66,127..130,191..193,255..258,319..321,511..513} into two runs separated by an in-box hit, also for Epsilon 32 and 64. " +
               std::string(prop == 14 ? "Every cell of the universe and cells just outside it / at the largest encodable coordinate are passed to contains(); oracle: membership in the multiset."
                                      : "Every box over the axis values is enumerated; oracle: brute-force filter sorted by the harness's own Morton code, with multiplicity; iteration must end within n+2 steps.") +
               " State = one indexed multiset; transition = one query; non-trivial = at least two distinct points.";
